@@ -225,6 +225,16 @@ def oracle_c10(hr: dsgen.HistoryRunner, stats) -> None:
             # the recorded value: a wrong recorded label is C11's business)
             labels = [recs[pos[i]].meta for i in a["ids"]
                       if i in pos and recs[pos[i]].meta]
+            # a write the format rejected in between still carried metadata
+            # the caller passed: from the caller's side the metadata changed
+            hi = nxt.seq if nxt is not None else 10**12
+            # (it may also have labelled the still unlabelled open shard, so
+            # any earlier rejected write with metadata in this session/split
+            # makes the caller-side label of this shard ambiguous: skip)
+            if any(r.meta and r.seq < hi and r.session == ses and
+                   r.writer == wr for r in hr.model.rejected.get(split, ())):
+                stats["rollover_next_to_rejected_write"] += 1
+                continue
             if (nxt is None or not nxt.meta or not labels or
                     nxt.meta == labels[-1]):
                 raise Violation(
